@@ -41,6 +41,16 @@ example {q' : Quantity} {v' : Rat} (h : pow poscDb qM2 3 11 = .ok (q', v')) :
 example : opNew poscDb .mul ⟨[⟨S "temperature", S "degC", 1⟩], 0, false⟩
     ⟨[⟨S "length", S "m", 1⟩, ⟨S "temperature", S "K", 1⟩], 0, true⟩ 2 3
     = .ok (⟨[⟨S "temperature", S "degC", 2⟩, ⟨S "length", S "m", 1⟩], 0, true⟩, 6) := by decide +kernel
+-- the reported quantity type: two categories of one quantity type are ADDED (m * cm(diameter) reports length ** 2),
+-- a type whose exponents cancel is not written
+example : typeExps poscDb [⟨S "length", S "m", 1⟩, ⟨S "diameter", S "m", 1⟩] = .ok [(S "length", 2)] := by decide +kernel
+example : reportedTypes poscDb [⟨S "length", S "m", 2⟩, ⟨S "time", S "s", -1⟩, ⟨S "diameter", S "m", -2⟩]
+    = .ok [(S "time", -1)] := by decide +kernel
+example {q : Quantity} {v : Rat} {l : List (Sym × Int)}
+    (h : opNew poscDb .mul qM ⟨[⟨S "diameter", S "cm", 1⟩], 0, false⟩ 6 50 = .ok (q, v))
+    (t : typeExps poscDb q.entries = .ok l) : expOf (S "length") l = 1 + 1 :=
+  mul_reported_types posc_allWF (known_of_b (by decide +kernel)) (known_of_b (by decide +kernel)) h
+    (l1 := [(S "length", 1)]) (l2 := [(S "length", 1)]) (by decide +kernel) (by decide +kernel) t (S "length")
 end examples
 
 end Barril.Alg
